@@ -25,6 +25,16 @@ CHECKS = {
         "Exploration: for every generated grammar (random, tiny exhaustive, nullable-chain and refused-merge families, overlapping lexicon) all 8 combinations of prefer_shifts x prefer_shifts_over_empty x {LALR,SLR} that construct are run on every token string up to 3-5 tokens: accepted inputs must be sentences and the built tree a derivation; for deterministic tables (no strategy, single-action cells) every sentence must be accepted, have exactly one reference derivation, and GLR must return exactly that one tree.",
         "Trusted: pv/ref_chart.py. Exactness only asserted on the non-overlapping lexicon. LR parsers that do not terminate on cyclic grammars are counted and skipped (C04 claims nothing about termination). Generator health gate: deterministic-class share of constructed parsers must stay >= 10%.",
         "DESIGN.md section 6/C04"),
+    "C06": (
+        "differential PBT: LR (no strategy) and GLR on generated operator tables vs a precedence-climbing reference; metamorphic PBT: adding priorities to deterministic LALR(1) grammars is neutral",
+        "Exploration: generated operator tables (1-6 operators, 1-6 levels with arbitrary integer priorities incl. 0, per-level associativity, shuffled alternatives, per-production or rule-level meta-data) plus an exhaustive two-operator family; every operator sequence with <= 3 operators and generated parenthesised expressions must construct without conflicts under LR with all strategies off and give the precedence-climbing tree; GLR must return exactly that one tree (forest[0] and get_first_tree). Second family: deterministic LALR(1) grammars (random, nullable chains, stratified expression grammar) with generated priorities/associativities added must keep acceptance, trees and error positions.",
+        "Trusted: the precedence-climbing reference in pv/props/c06.py. Operators of equal priority share one associativity (precondition of the property).",
+        "DESIGN.md section 6/C06"),
+    "C18": (
+        "PBT with a recording wrapper around generated dynamic filters: call-log invariants, accept-all == no filter, reject-P == forest without P, precedence filter == static priorities",
+        "Exploration: operator grammars with every/generated subsets of productions and terminals marked dynamic; filters accept-all, reject-all-reductions-of-one-production and precedence-encoding are wrapped in a recorder; for every expression with <= 3 operators (+ generated 4-operator ones), LR and GLR: first call is the all-None initialisation, later calls only for marked terminals/productions with matching sub-results; accept-all equals the parse without filter; reject-P gives exactly the trees not using P (SyntaxError iff none); the precedence filter gives the single precedence-climbing tree.",
+        "Trusted: precedence-climbing reference; LR grammars are fully marked or fully statically prioritised so that Parser() constructs.",
+        "DESIGN.md section 6/C18"),
     "C08": (
         "PBT evaluating the stated per-node position/losslessness predicates on every node of every LR tree and GLR forest tree under generated layout (ws and LAYOUT-rule comments), plus instrumented actions recording the positions callbacks receive",
         "Exploration: for every sentence (all token strings up to 4-5 tokens, rendered with generated layout before, between and after tokens; single-character, multi-character and overlapping lexicons; ws-based and comment LAYOUT grammars) every node of the LR build_tree result and of up to 40-200 forest trees + get_first_tree is checked: integer in-bounds positions, terminal value = input slice, ordered non-overlapping siblings, children inside parents, layout_content+value concatenation reproduces the input, and the positions seen by actions (on the fly and via call_actions) equal the tree's.",
